@@ -144,7 +144,7 @@ class Check(CheckBase):
             'recorder, constructor spied) and compared with a 10-line precedence function. Options: repository, concurrent, '
             'hide-progress, cache-directory / no-cache, password / password-file, key / key-file, five typed options of a custom '
             'backend discovered through the namespace package, an option of a backend derived from it, and options of s3, s3c, b2. '
-            'Mutually exclusive pairs must be rejected. The single-option lattice is enumerated completely for two commands (quick) '
+            'Seeded combinations of 2-4 options, each in its own subset of sources, are run as well. Mutually exclusive pairs must be rejected. The single-option lattice is enumerated completely for two commands (quick) '
             'or all fifteen (thorough). class = (option, source subset) and (command)')
     assumptions = ['the handler arguments are observed with _cmd_handler replaced; the command itself does not run']
     case_timeout = 600
@@ -168,6 +168,24 @@ class Check(CheckBase):
         for cmd in cmds:
             for i in range(0, len(cells), per):
                 cases.append({'kind': 'lattice', 'command': cmd, 'cells': cells[i:i + per]})
+        # several options at once, each in its own random subset of sources (seeded)
+        ncombo = 120 if quick else 1500
+        vf_opts = [oi for oi, o in enumerate(opts) if o.backend == 'vfspy']
+        combos = []
+        for _ in range(ncombo):
+            chosen, keys = [], set()
+            for oi in r.sample(vf_opts, r.randint(2, 4)):
+                o = opts[oi]
+                group = {'no-cache': 'cache', 'cache-directory': 'cache', 'password': 'pw', 'password-file': 'pw', 'key': 'key',
+                         'key-file': 'key', 'hide-progress': 'hp', 'hide-progress(false)': 'hp'}.get(o.name, o.name)
+                if group in keys:
+                    continue
+                keys.add(group)
+                k = r.randint(0, len(o.sources))
+                chosen.append((oi, sorted(r.sample(list(o.sources), k), key=SOURCES.index)))
+            combos.append(chosen)
+        for i in range(0, len(combos), 40):
+            cases.append({'kind': 'combo', 'command': r.choice(cmds), 'combos': combos[i:i + 40]})
         cases.append({'kind': 'repository', 'commands': cmds})
         cases.append({'kind': 'exclusive'})
         cases.append({'kind': 'every-command'})
@@ -219,6 +237,8 @@ class Check(CheckBase):
             env = self._env(scratch)
             if case['kind'] == 'lattice':
                 return self._lattice(case, scratch, env)
+            if case['kind'] == 'combo':
+                return self._combo(case, scratch, env)
             if case['kind'] == 'repository':
                 return self._repository(case, scratch, env)
             if case['kind'] == 'exclusive':
@@ -296,6 +316,58 @@ class Check(CheckBase):
                 violations.append(self._v(o, subset, cmd, want, got, sc, out))
         return {'verdict': 'violated' if violations else 'held', 'classes': sorted(classes), 'counters': counters,
                 'violations': violations[:6]}
+
+    def _combo(self, case, scratch, env):
+        opts = options(scratch)
+        cmd = case['command']
+        scenarios, expected = [], []
+        for ci, combo in enumerate(case['combos']):
+            tail, envv, dl, pl = [], {}, [], []
+            fill = ['--token', 'FILL']
+            exp = []
+            for oi, subset in combo:
+                o = opts[oi]
+                for src in subset:
+                    spelled, _ = o.values[src]
+                    if src == 'cli':
+                        tail += o.cli(spelled)
+                    elif src == 'env':
+                        envv[o.env] = spelled
+                    elif src == 'profile':
+                        pl.append(f'{o.key} = {toml_value(spelled)}')
+                    else:
+                        dl.append(f'{o.key} = {toml_value(spelled)}')
+                if o.name == 'token':
+                    fill = []
+                want = o.builtin
+                for src in SOURCES:
+                    if src in subset:
+                        want = o.values[src][1]
+                        break
+                exp.append((o, subset, want))
+            cfg = self._config(scratch, ci, dl, pl)
+            scenarios.append({'id': ci, 'argv': COMMANDS[cmd] + ['-r', 'vfspy:conn', '--config', cfg, '--profile', 'prof'] + fill + tail,
+                              'env': envv, 'cwd': env['cwd']})
+            expected.append(exp)
+        outs = self._run(scenarios, env)
+        classes, violations = set(), []
+        for sc, out, exp in zip(scenarios, outs, expected):
+            classes.add('combo|' + '&'.join(sorted(o.name for o, _, _ in exp)))
+            for o, subset, want in exp:
+                if want == 'BUILTIN-CACHE':
+                    want = {'path': env['builtin_cache']}
+                if want == 'MISSING':
+                    if out.get('ok') and o.observe in (out.get('ctor') or {}):
+                        violations.append(self._v(o, subset, cmd, 'absent (set in no source)', out['ctor'][o.observe], sc, out))
+                    continue
+                if not out.get('ok'):
+                    violations.append(self._v(o, subset, cmd, want, f'entry point failed: {out.get("error")} {out.get("stderr", "")[-160:]}', sc, out))
+                    break
+                got = (out['ctor'] if o.where == 'ctor' else out['args']).get(o.observe, '<absent>')
+                if got != want or type(got) is not type(want):
+                    violations.append(self._v(o, subset, cmd, want, got, sc, out))
+        return {'verdict': 'violated' if violations else 'held', 'classes': sorted(classes),
+                'counters': {'invocations': len(outs), 'option_combinations': len(outs)}, 'violations': violations[:6]}
 
     @staticmethod
     def _v(o, subset, cmd, want, got, sc, out):
